@@ -167,6 +167,10 @@ class NF(object):
                 den = p_scale(den, 1 / lead)
         if not num:
             den = {UNIT: ONE}
+        elif len(den) > 1:
+            q = exact_div(num, den)
+            if q is not None:
+                num, den = q, {UNIT: ONE}
         num = _fold_primes(num)
         if len(den) > 1:
             den = _fold_primes(den)
@@ -359,6 +363,62 @@ def atom_children(a):
 # --------------------------------------------------------------------------------------------
 # reduce  ('pow', base)**e  with |e| >= 1  by expanding the integer part
 # --------------------------------------------------------------------------------------------
+def _lead(p):
+    """leading (monomial, coefficient) in a fixed total order on monomials: lexicographic by atom key,
+    then exponent"""
+    best = None
+    bk = None
+    for m, c in p.items():
+        k = tuple((akey(a), e) for a, e in m)
+        if bk is None or _mono_gt(m, best):
+            best, bk = m, k
+    return best, p[best]
+
+
+def _mono_gt(m1, m2):
+    """m1 > m2 in lex order over atoms sorted by key (a missing atom has exponent 0)"""
+    d1, d2 = dict(m1), dict(m2)
+    for a in sorted(set(d1) | set(d2), key=akey):
+        e1, e2 = d1.get(a, ZERO), d2.get(a, ZERO)
+        if e1 != e2:
+            return e1 > e2
+    return False
+
+
+def exact_div(num, den, limit=400):
+    """num/den as a polynomial when den divides num exactly (multivariate long division in a lex
+    order, Laurent/Puiseux exponents allowed), else None"""
+    if len(den) <= 1 or not num:
+        return None
+    dm, dc = _lead(den)
+    inv = mono_pow(dm, Fraction(-1))
+    rem = dict(num)
+    quo = {}
+    steps = 0
+    while rem:
+        steps += 1
+        if steps > limit:
+            return None
+        rm, rc = _lead(rem)
+        qm = mono_mul(rm, inv)
+        # divisibility in the Puiseux setting is always possible formally; termination is guaranteed
+        # only when the quotient is a polynomial, so bound the number of steps and the quotient size
+        qc = rc / dc
+        quo[qm] = quo.get(qm, ZERO) + qc
+        if quo[qm] == 0:
+            del quo[qm]
+        for m, c in den.items():
+            mm = mono_mul(m, qm)
+            nc = rem.get(mm, ZERO) - c * qc
+            if nc == 0:
+                rem.pop(mm, None)
+            else:
+                rem[mm] = nc
+        if len(quo) > 4 * (len(num) + 2):
+            return None
+    return quo
+
+
 def _fold_primes(p):
     """('prime', q)**e : fold the integer part of e into the rational coefficient"""
     hit = False
